@@ -50,6 +50,8 @@ pub mod sync;
 mod heads;
 mod keys;
 mod ranger;
+#[cfg(iroh_docs_verif)]
+pub mod verif;
 
 #[doc(inline)]
 pub use net::ALPN;
